@@ -161,14 +161,41 @@ def main(argv):
     os.makedirs(os.path.join(VERIF, 'replays'), exist_ok=True)
     jobs = jobs_for(prop)
     nproc = int(os.environ.get('PYVC_JOBS', '16'))
+    results = []
+    done_units = set()
+    rounds = 0
     with multiprocessing.Pool(min(nproc, max(1, len(jobs)))) as pool:
-        results = []
-        for r in pool.imap_unordered(worker, jobs, chunksize=1):
-            results.append(r)
-            if os.environ.get('PYVC_VERBOSE'):
-                print('  unit %-70s %-8s %-9s %3d obs %6.1fs %s' % (r['name'][-70:], r['config'], r['status'],
-                                                                  len(r['obs']), r['time'], r['reason'][:100]))
-        results.sort(key=lambda r: (r['name'], r['config']))
+        while jobs and rounds < 6:
+            rounds += 1
+            for j in jobs:
+                done_units.add((j[1], j[2], j[3]))
+            batch = []
+            for r in pool.imap_unordered(worker, jobs, chunksize=1):
+                batch.append(r)
+                if os.environ.get('PYVC_VERBOSE'):
+                    print('  unit %-70s %-8s %-9s %3d obs %6.1fs %s' % (r['name'][-70:], r['config'], r['status'],
+                                                                      len(r['obs']), r['time'], r['reason'][:100]))
+            results.extend(batch)
+            # dependency closure: every contract used at a call site is verified in this
+            # check too (callee contracts proved under another property are re-proved here)
+            jobs = []
+            for r in batch:
+                for used in r['called_contracts']:
+                    tgt, _, rest = used.partition('[')
+                    cname = rest.rstrip(']')
+                    for i, cd in enumerate(dsl.CONTRACTS.get(tgt, [])):
+                        if cd.name == cname and ('contract', tgt, i) not in done_units:
+                            done_units.add(('contract', tgt, i))
+                            n = 4 if verify.parsed(cd).options.get('chains') else 1
+                            sh = verify.parsed(cd).options.get('shards', 1)
+                            for c in range(n):
+                                for k in range(sh):
+                                    jobs.append((prop, 'contract', tgt, i, c, (k, sh) if sh > 1 else None))
+                for lname in r['lemmas']:
+                    if lname in dsl.LEMMAS and ('lemma', lname, 0) not in done_units:
+                        done_units.add(('lemma', lname, 0))
+                        jobs.append((prop, 'lemma', lname, 0, 0, None))
+    results.sort(key=lambda r: (r['name'], r['config']))
     kf = load_known(prop)
     violations = []
     undecided = []
